@@ -445,8 +445,11 @@ func runC05Case(r *ev.Run, c c05Case) {
 // returned, the caller carries on with Mail/Rcpt/Quit - or Noop / Extension - on the same smtp.Client.
 type c05DirectCase struct {
 	HELO   string `json:"helo"`
-	Then   string `json:"then"` // mail | noop | extension | quit
+	Then   string `json:"then"` // mail | noop | extension | quit | vrfy | sendmail
 	Direct bool   `json:"direct_smtp_client"`
+	// Addr: a value with CR and/or LF inside, handed to Mail / Rcpt / Verify / SendMail of the smtp package as it is
+	Addr string `json:"addr,omitempty"`
+	Role string `json:"role,omitempty"` // from | rcpt | rcpt-dsn
 }
 
 func runC05Direct(r *ev.Run, c c05DirectCase) {
@@ -482,9 +485,34 @@ func runC05Direct(r *ev.Run, c c05DirectCase) {
 		case "extension":
 			_, _ = sc.Extension("8BITMIME")
 		case "quit":
+		case "vrfy":
+			_ = sc.Verify(c.Addr)
+		case "sendmail":
+			from, to := "sender@example.com", "rcpt@example.net"
+			if c.Role == "from" {
+				from = c.Addr
+			} else {
+				to = c.Addr
+			}
+			if sc.Mail(from) == nil && sc.Rcpt(to) == nil {
+				if w, err := sc.Data(); err == nil {
+					_, _ = w.Write([]byte("Subject: x\r\n\r\nbody\r\n"))
+					_ = w.Close()
+				}
+			}
 		default:
-			if sc.Mail("sender@example.com") == nil {
-				_ = sc.Rcpt("rcpt@example.net")
+			from, to := "sender@example.com", "rcpt@example.net"
+			switch c.Role {
+			case "from":
+				from = c.Addr
+			case "rcpt":
+				to = c.Addr
+			case "rcpt-dsn":
+				to = c.Addr
+				sc.SetDSNRcptNotifyOption("SUCCESS,FAILURE")
+			}
+			if sc.Mail(from) == nil {
+				_ = sc.Rcpt(to)
 			}
 		}
 		_ = sc.Quit()
@@ -499,6 +527,16 @@ func runC05Direct(r *ev.Run, c c05DirectCase) {
 	r.Count("direct_smtp_client_sessions", 1)
 	for _, cr := range cmds {
 		r.Count("command_lines_parsed", 1)
+		if c.Addr != "" {
+			// a value with CR / LF inside is refused or arrives as part of one line - never as a line break, and a bare CR
+			// (a line end to many servers) never reaches the wire
+			if strings.ContainsAny(cr.Line, "\r\n") {
+				viol("cr-lf-inside-command-line:direct:"+c.Then+":"+c.Role, fmt.Sprintf("smtp.Client.%s was handed %q: the server received the line %q", c.Then, c.Addr, cr.Line), linesOf(cmds))
+			}
+			if cr.Verb == "RSET" || strings.Contains(cr.Line, "smuggled") && !strings.HasPrefix(strings.ToUpper(cr.Line), "MAIL") && !strings.HasPrefix(strings.ToUpper(cr.Line), "RCPT") && !strings.HasPrefix(strings.ToUpper(cr.Line), "VRFY") {
+				viol("smuggled-command:direct:"+c.Then+":"+c.Role, fmt.Sprintf("smtp.Client.%s was handed %q: the server received the extra line %q", c.Then, c.Addr, cr.Line), linesOf(cmds))
+			}
+		}
 		if (cr.Verb == "EHLO" || cr.Verb == "HELO") && cr.Parsed != nil && cr.Parsed.Arg != c.HELO && cr.Parsed.Arg != "localhost" {
 			viol("helo-altered:direct", fmt.Sprintf("HELO name %q arrived as %q", c.HELO, cr.Parsed.Arg), cr.Line)
 		}
@@ -521,7 +559,7 @@ func runC05Direct(r *ev.Run, c c05DirectCase) {
 			viol("malformed-line:direct:"+c.Then, "smtp.Client used directly (Hello, then "+c.Then+"): the reference server received a line that is not one well-formed command: "+v, linesOf(cmds))
 		}
 	}
-	r.Eval(fmt.Sprintf("direct|%q|%s", c.HELO, c.Then), true)
+	r.Eval(fmt.Sprintf("direct|%q|%s|%q|%s", c.HELO, c.Then, c.Addr, c.Role), true)
 }
 
 func localClass(mbox string) string {
@@ -595,7 +633,7 @@ func sameSet(a, b string) bool {
 
 func runC05(r *ev.Run, rep *ev.ReplayDoc) ev.Summary {
 	sum := ev.Summary{
-		Rule: "addresses built from (local part, domain) pairs - dot-atoms and quoted-string local parts with blank, <, >, @, comma, ;, :, backslash, quote, UTF-8 and smuggling payloads such as 'a> NOTIFY=NEVER ORCPT=rfc822;x <b' - in four spellings, through the *Format setters and as comma-separated lists through the *FromString setters, as From / EnvelopeFrom / To / Cc / Bcc (every local part in every role); HELO names with blanks, tabs, CR, LF, embedded commands, 600 characters (through WithHELO, and through smtp.Client.Hello with the caller carrying on after a refusal); credentials with CR/LF/blanks/controls for PLAIN, LOGIN, CRAM-MD5, XOAUTH2, SCRAM; every DSN option set the typed setters accept or must reject, several DSN options together in both orders; capability subsets. Every raw line received outside DATA is parsed with the strict RFC 5321 grammar. distinct by case",
+		Rule: "addresses built from (local part, domain) pairs - dot-atoms and quoted-string local parts with blank, <, >, @, comma, ;, :, backslash, quote, UTF-8 and smuggling payloads such as 'a> NOTIFY=NEVER ORCPT=rfc822;x <b' - in four spellings, through the *Format setters and as comma-separated lists through the *FromString setters, as From / EnvelopeFrom / To / Cc / Bcc (every local part in every role); HELO names with blanks, tabs, CR, LF, embedded commands, 600 characters (through WithHELO, and through smtp.Client.Hello with the caller carrying on after a refusal); values with a bare CR, a bare LF or CRLF handed to smtp.Client.Mail / Rcpt / Verify directly; credentials with CR/LF/blanks/controls for PLAIN, LOGIN, CRAM-MD5, XOAUTH2, SCRAM; every DSN option set the typed setters accept or must reject, several DSN options together in both orders; capability subsets. Every raw line received outside DATA is parsed with the strict RFC 5321 grammar. distinct by case",
 		Assumptions: []string{
 			"the intended mailbox is known by construction (local part + domain); a case whose address a setter rejected is only judged for line well-formedness",
 			"a stray '*' after a final AUTH reply is C04's known finding and not attributed to this property",
@@ -744,6 +782,15 @@ func runC05(r *ev.Run, rep *ev.ReplayDoc) ev.Summary {
 		for _, then := range []string{"mail", "noop", "extension", "quit"} {
 			dcases = append(dcases, c05DirectCase{HELO: h, Then: then, Direct: true})
 		}
+	}
+	// ... and Mail / Rcpt / Verify with values that hold a bare CR, a bare LF or CRLF
+	for _, a := range []string{"a@example.com\rRSET\rMAIL FROM:<smuggled@example.org>", "a@example.com\r", "a\rb@example.com", "a@example.com\nRSET", "a@example.com\r\nRSET\r\n",
+		"a@example.com>\rRCPT TO:<smuggled@example.org", "\ra@example.com", "a@example.com\r SIZE=1"} {
+		for _, role := range []string{"from", "rcpt", "rcpt-dsn"} {
+			dcases = append(dcases, c05DirectCase{HELO: "client.example.org", Then: "mail", Direct: true, Addr: a, Role: role})
+		}
+		dcases = append(dcases, c05DirectCase{HELO: "client.example.org", Then: "vrfy", Direct: true, Addr: a, Role: "vrfy"},
+			c05DirectCase{HELO: "client.example.org", Then: "sendmail", Direct: true, Addr: a, Role: "from"}, c05DirectCase{HELO: "client.example.org", Then: "sendmail", Direct: true, Addr: a, Role: "rcpt"})
 	}
 	r.Parallel(len(dcases), func(i int) { runC05Direct(r, dcases[i]) })
 	return sum
